@@ -1273,8 +1273,12 @@ class Intersection(Operation):
            global_state: pg.geno.AttributeDict,
            step: int = 0) -> List[Any]:
     id_count = {}
+    # NOTE: the outputs are kept alive until the end of the call, since
+    # `id` of an object that has been released can be taken by a new object.
+    outputs = []
     for op in self._ops[1:]:
-      for dna in op(inputs, global_state=global_state, step=step):
+      outputs.append(op(inputs, global_state=global_state, step=step))
+      for dna in outputs[-1]:
         dna_id = id(dna)
         if dna_id not in id_count:
           id_count[dna_id] = 0
@@ -1323,8 +1327,12 @@ class Difference(Operation):
            global_state: pg.geno.AttributeDict,
            step: int = 0) -> List[Any]:
     excluded_ids = set()
+    # NOTE: the outputs are kept alive until the end of the call, since
+    # `id` of an object that has been released can be taken by a new object.
+    outputs = []
     for op in self._ops[1:]:
-      for dna in op(inputs, global_state=global_state, step=step):
+      outputs.append(op(inputs, global_state=global_state, step=step))
+      for dna in outputs[-1]:
         excluded_ids.add(id(dna))
     results = []
     for dna in self._ops[0](inputs, global_state=global_state, step=step):
